@@ -104,6 +104,13 @@ func (g *Gen) FnLine(pool []string, verb, db, coll string, carrier string) *FnCa
 			f.Set("$expr", ObjN(g.pick("$eq", "$gt", "$ne"), ArrN(StrN(g.pick("$$ROOT.", "$$CURRENT.", "$")+n[0]).With(&Tag{Role: Ref}), StrN(g.pick("$$ROOT.", "$")+n[1]).With(&Tag{Role: Ref}))))
 		}
 		cmd = ObjN("find", collN(coll), "filter", f, "sort", ObjN(n[0], FreeI(1), n[1], FreeI(-1)), "limit", KeepI(10))
+		if g.chance(0.5) {
+			// members that are not query-bearing (fixed, non-planted names): whatever the switches, they come out as
+			// in the run without --redactFieldNames
+			cmd.Set("projection", keep(ObjN("fixedsku", IntN(1), "fixedgift", BoolN(true), "_id", IntN(0))))
+			cmd.Set("hint", keep(ObjN("fixedsku", IntN(1), "fixedts", IntN(-1))))
+			cmd.Set("skip", KeepI(20))
+		}
 		clauses = [][]string{{n[0], n[1]}}
 		if g.chance(0.4) {
 			clauses = [][]string{{n[0]}, {n[2]}, {n[0] + "." + n[3], n[1]}}
@@ -112,6 +119,10 @@ func (g *Gen) FnLine(pool []string, verb, db, coll string, carrier string) *FnCa
 		u := ObjN("$set", ObjN(n[1], l("update"), n[2]+"."+n[3], l("update")), "$inc", ObjN(n[0], sens(NumN(g.Number()), "num", "fn-update")))
 		if g.chance(0.3) {
 			u = ObjN(n[1], l("replacement"), n[2], ObjN(n[3], l("replacement")))
+		} else if g.chance(0.4) {
+			// strings that NAME fields (the new name of a $rename): no claim for matching lines, but a line of
+			// another namespace is emitted exactly as without the flag
+			u.Set("$rename", ObjN("fixedold", FreeS("fixednew"), "fixedmail", FreeS("contact.fixedmail")))
 		}
 		cmd = ObjN("update", collN(coll), "updates", ArrN(ObjN("q", ObjN(n[0], l("q"), n[4], ObjN("$ne", l("q"))), "u", u, "multi", FreeB(false))), "ordered", keep(BoolN(true)))
 		clauses = [][]string{{n[0], n[4]}}
@@ -124,6 +135,9 @@ func (g *Gen) FnLine(pool []string, verb, db, coll string, carrier string) *FnCa
 		}
 		if g.chance(0.5) {
 			p.Vals = append(p.Vals, ObjN("$group", ObjN("_id", ref(n[2]), "total", ObjN("$sum", ref(n[0])))))
+		}
+		if g.chance(0.4) {
+			p.Vals = append(p.Vals, ObjN("$lookup", ObjN("from", FreeS("fixedcoll"), "localField", FreeS("fixedlocal"), "foreignField", FreeS("fixedforeign"), "as", FreeS("fixedjoined"))))
 		}
 		if g.chance(0.4) {
 			// the same fields reached through a variable: "$$ROOT.f" / "$$CURRENT.f" are other spellings of "$f",
